@@ -486,8 +486,14 @@ impl Session<'_> {
                             .await?;
                     }
                 }
-                CurrentSessionId::ToBeRenamed { .. } => {
-                    // Nothing to do.
+                CurrentSessionId::ToBeRenamed { new, .. } => {
+                    // There is no record to rename, but the state is going to be
+                    // marked as 'unchanged' below: the (empty) record must exist.
+                    if create_if_empty {
+                        self.store
+                            .create(&new, SessionRecordRef::empty(fresh_ttl))
+                            .await?;
+                    }
                 }
             },
             None => {
